@@ -127,6 +127,10 @@ pub enum InOp {
     DisallowOwn,
     SubscribeOwn,
     ReadOwn,
+    /// not an operation: the handler's closure owns a guard that, when the closure is dropped,
+    /// unsubscribes (through the `WeakState`) the newest other subscription its observer had when
+    /// this one was made
+    GuardSibling,
 }
 
 #[derive(Clone, Debug, PartialEq)]
